@@ -193,20 +193,6 @@ def check_partial(repo, rep, tier):
                   "simulators' own (counted from the first stored candle) - also for 3D / 1W windows of a session that starts on a day "
                   "which is not a multiple of the timeframe from the epoch; taken from the tail of the stored 1m candles")
     fn = repo.func(BT, "_update_all_routes_a_partial_candle")
-    asg = [n for n in ast.walk(fn) if isinstance(n, ast.Assign) and isinstance(n.targets[0], ast.Name) and n.targets[0].id == "number_of_needed_candles"]
-    if len(asg) != 1:
-        raise AnalysisError("_update_all_routes_a_partial_candle: number_of_needed_candles assignment not found")
-    # the statements of the route loop body up to (and including) that assignment, minus the route filter
-    loop = next(n for n in ast.walk(fn) if isinstance(n, ast.For) and any(x is asg[0] for x in ast.walk(n)))
-    pre = []
-    for st in loop.body:
-        if isinstance(st, ast.If):
-            continue
-        pre.append(st)
-        if st is asg[0]:
-            break
-    if asg[0] not in pre:
-        raise AnalysisError("_update_all_routes_a_partial_candle: assignment is not a top-level statement of the route loop")
     tfs = [3, 5, 15, 30, 45, 60] if tier == "quick" else [3, 5, 15, 30, 45, 60, 120, 180, 240, 360, 480, 720, 1440]
     day = 1440
     # (timeframe minutes, session start in minutes since the epoch, residues to try): the last two start on a day that is not a
@@ -215,28 +201,43 @@ def check_partial(repo, rep, tier):
     cases += [(4320, 18628 * day, [0, 1, 1439, 1440, 2000, 2880, 4319]), (10080, 18628 * day, [0, 1440, 5000, 10079])]
     name_by_minutes = {v: k for k, v in {"3m": 3, "5m": 5, "15m": 15, "30m": 30, "45m": 45, "1h": 60, "2h": 120, "3h": 180, "4h": 240, "6h": 360, "8h": 480,
                                          "12h": 720, "1D": 1440, "3D": 4320, "1W": 10080}.items()}
+    tail_bad = None
     for tf, start_min, residues in cases:
         bad = None
         for k in residues:
             windows_before = 2
             count = windows_before * tf + k + 1                  # stored 1m candles, the executing one included
             ts = (start_min + windows_before * tf + k) * MIN
-            it = Interp(repo, stubs=W.base_stubs())
+            # the function itself is interpreted against a model of the candle store: `count` stored 1m candles (row j carries the
+            # atoms r<j>), the aggregation function recorded
+            cells = [A(x + "s") for x in "ochlv"]          # rows are told apart by identity and timestamp
+            rows = [Arr([num((start_min + j) * MIN)] + cells) for j in range(max(0, count - tf - 2), count)]
+            stored = Arr2(rows)
+            got = []
+            stubs = W.base_stubs()
+            stubs["jesse/services/candle.py:generate_candle_from_one_minutes"] = lambda i, a, kk, got=got: (got.append(a[1]), Arr([num(0)] + [A(f"g.{x}") for x in "ochlv"]))[1]
+            it = Interp(repo, stubs=stubs)
             storage = Obj("DynamicNumpyArray", name="storage-1m", attrs={"__len__": BoundBuiltin(lambda i, a, kk, c=count: num(c))})
             cs = Obj("CandlesState", name="store.candles", attrs={}, open_world=True)
             W.bind(cs, "get_storage", lambda i, a, kk, st_=storage: st_)
+            W.bind(cs, "get_candles", lambda i, a, kk, st_=stored: st_)
+            W.bind(cs, "add_candle", lambda i, a, kk: None)
             it.overrides[f"{W.STORE}:store"] = Obj("StoreClass", name="store", attrs={"candles": cs}, open_world=True)
-            fr = Frame(repo.module(BT), {"storable_temp_candle": Arr([num(ts)] + [A(x) for x in "ochlv"]), "timeframe": name_by_minutes[tf],
-                                        "exchange": "Sandbox", "symbol": "BTC-USDT", "route": {"timeframe": name_by_minutes[tf], "exchange": "Sandbox", "symbol": "BTC-USDT"}})
+            route = {"timeframe": name_by_minutes[tf], "exchange": "Sandbox", "symbol": "BTC-USDT"}
+            it.overrides["jesse/routes/__init__.py:router"] = Obj("RouterClass", name="router", attrs={"all_formatted_routes": [route], "formatted_routes": [route]}, open_world=True)
             try:
-                for st in pre:
-                    it.exec(st, fr)
+                it.call(FuncV(fn, repo.module(BT), qual=fn.name), ["Sandbox", "BTC-USDT", Arr([num(ts)] + [A(x) for x in "ochlv"])], {})
             except NotInFragment as e:
-                raise AnalysisError(f"_update_all_routes_a_partial_candle: window arithmetic not interpretable: {e}")
-            v = fr.locals.get("number_of_needed_candles")
-            if not (isinstance(v, R) and v.is_const() and v.const_value() == k + 1):
-                bad = (k, v)
+                raise AnalysisError(f"_update_all_routes_a_partial_candle: not interpretable: {e}")
+            if len(got) != 1 or not isinstance(got[0], Arr2):
+                bad = (k, f"{len(got)} aggregations")
                 break
+            n_rows = len(got[0].rows)
+            if n_rows != k + 1:
+                bad = (k, n_rows)
+                break
+            if got[0].rows and got[0].rows[-1] is not rows[-1] or any(x is not y for x, y in zip(got[0].rows, rows[len(rows) - n_rows:])):
+                tail_bad = (tf, k)
         if bad:
             aligned = start_min % tf == 0
             rep.violation(rid, "partial|count" + ("" if aligned else "|session-start-not-on-the-epoch-grid"),
@@ -244,12 +245,9 @@ def check_partial(repo, rep, tier):
                           + ("" if aligned else f" (session start = day {start_min // day} since the epoch, which is not a multiple of the timeframe: the windows are counted from the first candle)"))
         rep.instance(rid, f"tf={tf}|start={start_min}", {"timeframe_minutes": tf, "residues": len(residues)})
     # the aggregated slice is the tail of the stored 1m candles of that length
-    uses = [n for n in ast.walk(fn) if isinstance(n, ast.Subscript) and isinstance(n.slice, ast.Slice) and n.slice.upper is None
-            and isinstance(n.slice.lower, ast.UnaryOp) and isinstance(n.slice.lower.op, ast.USub) and norm(n.slice.lower.operand) == "number_of_needed_candles"]
-    ok_tail = any("get_candles" in norm(u.value) and "'1m'" in norm(u.value) for u in uses)
-    if not ok_tail:
-        rep.violation(rid, "partial|tail", "partial candle is not generated from the last number_of_needed_candles stored 1m candles")
-    rep.instance(rid, "tail-slice", {"uses": [norm(u) for u in uses]})
+    if tail_bad:
+        rep.violation(rid, "partial|tail", f"partial candle ({name_by_minutes[tail_bad[0]]}, minute {tail_bad[1]} of its window) is not generated from the LAST stored 1m candles")
+    rep.instance(rid, "tail-slice")
     rep.floor(rid, 5)
 
 
@@ -454,7 +452,11 @@ def check_partial_before_execution(repo, rep):
             if ln == "execute" and isinstance(node.func, ast.Attribute):
                 return ("execute", norm(node.func.value))
             return None
-        cfg = Cfg(call=call, loop_unroll=2)
+        # module-local helpers (other than the publisher itself) are inlined, so the rule does not depend on how the function is cut
+        from vlib.traces import make_inliner
+        inl = make_inliner(repo, lambda label: "." not in label.rstrip("()") and SL.last(label) not in ("_update_all_routes_a_partial_candle", "_get_executing_orders",
+                                                                                                          "_sort_execution_orders", "_check_for_liquidations"))
+        cfg = Cfg(call=call, inline=inl, max_depth=2, loop_unroll=2)
         execs = 0
         for evs, ex in Tracer(repo, cfg).block(fn.body, (repo.module(BT), None), 0):
             if ex == RAISE:
